@@ -199,4 +199,100 @@ theorem failed_before_export_leaves_s1_untouched_partial (v : Variant) (s : Scri
     simp only [always, R.sat_thr] at hpre
     simp_all [NoS1, AllEv, NotS1]
 
+/-- `pre` falls through: the call reaches `b.exportStateData(d.s1)` in the shipped order -/
+def reachesExport (s : Script α) : Prop :=
+  s.init = .ok ∧ ¬ cbRaises s ∧ isPrediction (effK0 s.k0) = false ∧
+  ¬ (s.traits.hasCTO = false ∧ integSmt (effK0 s.k0) ≠ .noStiffness) ∧ integrationOk s
+
+instance (s : Script α) : Decidable (reachesExport s) := by unfold reachesExport; infer_instance
+
+theorem pre_code_none_iff (v : Variant) (s : Script α) (st : St α) :
+    (pre v s st).code = none ↔ reachesExport s := by
+  rw [pre_code]
+  unfold reachesExport
+  by_cases h1 : s.init = .ok <;> by_cases h2 : cbRaises s <;>
+    by_cases h3 : isPrediction (effK0 s.k0) = true <;>
+    by_cases h4 : s.traits.hasCTO = false ∧ integSmt (effK0 s.k0) ≠ .noStiffness <;>
+    by_cases h5 : integrationOk s <;> by_cases h6 : predictionOk s <;> simp_all
+
+theorem R.code_none {r : R α} (h : r.code = none) : ∃ st, r = .next st := by
+  cases r <;> simp_all [R.code]
+
+/-- **the defect of the shipped order, exactly**: with the state exported first, a call returns `-1` with
+`s1` already written if and only if everything up to the a posteriori time step factor succeeded and one
+of the steps placed after the export throws — the export of the tangent operator (scripted throw in
+`getTangentOperator`, or unsupported operator type), `computeInternalEnergy`, `computeDissipatedEnergy`,
+`computeSpeedOfSound` (`¬ tailOk s`). These are the findings `integrate:throw-after-export:<stage>`. -/
+theorem shipped_order_s1_written_on_failure_iff (p : Bool) (s : Script α) :
+    ((integrate ⟨false, p⟩ s).ret = -1 ∧ ∃ o ∈ (integrate ⟨false, p⟩ s).written, o.isS1 = true) ↔
+      (reachesExport s ∧ ¬ tailOk s) := by
+  constructor
+  · rintro ⟨hret, o, ho, hs1⟩
+    have hexp : Event.exp ∈ (integrate ⟨false, p⟩ s).st.ev := by
+      by_contra hne
+      have := failed_before_export_leaves_s1_untouched_partial ⟨false, p⟩ s hne o ho
+      simp [this] at hs1
+    have hr : reachesExport s := by
+      rw [← pre_code_none_iff ⟨false, p⟩ s (st0 s)]
+      by_contra hc
+      -- `pre` ended the call: its events are all there is (plus `min`), none is `exp`
+      have hall := pre_all (fun e => e ≠ Event.exp) ⟨false, p⟩ s (st0 s)
+        (fun e he => by cases e <;> simp_all [PreEv]) (by simp [st0, AllEv])
+      have hb : body ⟨false, p⟩ s (st0 s) = (pre ⟨false, p⟩ s (st0 s)).bind fun st =>
+        if (⟨false, p⟩ : Variant).lateExport then tailLate s (effK0 s.k0) st else tailEarly s (effK0 s.k0) st := rfl
+      cases hp : pre ⟨false, p⟩ s (st0 s) with
+      | next st => simp [hp] at hc
+      | ret c st =>
+        rw [hp] at hb hall
+        simp only [R.bind] at hb
+        simp only [integrate, hb] at hexp
+        exact (by simpa [always] using hall : AllEv (fun e => e ≠ Event.exp) st) _ hexp rfl
+      | thr m st =>
+        rw [hp] at hb hall
+        simp only [R.bind] at hb
+        simp only [integrate, hb, log_ev, List.mem_append, List.mem_singleton] at hexp
+        rcases hexp with hexp | hexp
+        · exact (by simpa [always] using hall : AllEv (fun e => e ≠ Event.exp) st) _ hexp rfl
+        · cases hexp
+    refine ⟨hr, ?_⟩
+    intro ht
+    have hc : (body ⟨false, p⟩ s (st0 s)).code = none := by
+      rw [body_code, (pre_code_none_iff _ s _).2 hr]
+      simp [ht]
+    have := (integrate_ret_none _ s hc).1
+    rw [this] at hret
+    split at hret <;> simp at hret
+  · rintro ⟨hr, ht⟩
+    have hpc := (pre_code_none_iff ⟨false, p⟩ s (st0 s)).2 hr
+    have hc : (body ⟨false, p⟩ s (st0 s)).code = some (-1) := by
+      rw [body_code, hpc]
+      simp [ht]
+    refine ⟨integrate_ret_some _ s hc, .tf, ?_, rfl⟩
+    obtain ⟨st, hst⟩ := R.code_none hpc
+    have hb : body ⟨false, p⟩ s (st0 s) = tailEarly s (effK0 s.k0) st := by
+      unfold body
+      rw [hst]
+      simp [R.bind]
+    have h1 := (tailEarly_exported s (effK0 s.k0) st).trans (hb ▸ integrate_ev_of_body ⟨false, p⟩ s)
+    have h2 : Event.write Out.tf ∈ (stepExportState st).ev := by simp [stepExportState]
+    simp only [Result.written, List.mem_filterMap]
+    exact ⟨_, h1.subset h2, rfl⟩
+
+/-! ### non-vacuity: the hypotheses are satisfiable, and the shipped order does violate the property -/
+
+/-- `computeInternalEnergy` throws: `-1` is returned; repaired order, nothing stored at all -/
+example : (integrate ⟨true, true⟩ { Cent.script with ie := .throwStd }).ret = -1 ∧
+    (integrate ⟨true, true⟩ { Cent.script with ie := .throwStd }).written = [] := by decide
+/-- same script, shipped order: `-1` with forces, internal state variables and tangent operator stored -/
+example : (integrate ⟨false, true⟩ { Cent.script with ie := .throwStd }).ret = -1 ∧
+    (integrate ⟨false, true⟩ { Cent.script with ie := .throwStd }).written = [.tf, .isv, .k] := by decide
+example : reachesExport { Cent.script with sos := .throwOther, k0 := 104.0 } ∧
+    ¬ tailOk { Cent.script with sos := .throwOther, k0 := 104.0 } := by decide
+/-- a failure before the export (integration fails): no `exp` event, nothing stored -/
+example : Event.exp ∉ (integrate ⟨false, false⟩ { Cent.script with integ := .failure }).st.ev ∧
+    (integrate ⟨false, false⟩ { Cent.script with integ := .failure }).ret = -1 := by decide
+/-- on success the state is stored -/
+example : (integrate ⟨true, true⟩ Cent.script).ret = 1 ∧
+    (integrate ⟨true, true⟩ Cent.script).written = [.k, .tf, .isv, .se, .de] := by decide
+
 end TfelVerif.C40.Props
